@@ -92,6 +92,23 @@ Theorem C20_sweep : forall K minpos op oi jsa_raw norm_jsi freq base setups opt 
   Ok (map (fun v => v / jsi_of jsa_raw norm_jsi opt (fst (center freq opt)) (snd (center freq opt))) (jsi_values jsa_raw norm_jsi freq setups)).
 Proof. exact sweep. Qed.
 
+(* =====================================================================================================================
+   FULL STRENGTH for the code as it is now (try_as_optimum_now = the model with the flags the generator reads off the source;
+   the proof of C20_idempotent_now contains the obligation optimum_waist_sees_old_idler = false): optimising is idempotent for
+   EVERY setup, and EVERY optimised setup has unit normalised values at its centre. *)
+Theorem C20_idempotent_now : forall K minpos s s' nf,
+  collinear_contract K -> try_as_optimum_now K minpos s = Ok (s', nf) -> try_as_optimum_now K minpos s' = Ok (s', nf).
+Proof. exact optimum_idempotent_now. Qed.
+
+Theorem C20_unit_at_centre_of_optimum : forall K minpos jsa_raw singles_raw norm_jsi norm_singles freq s so nf j,
+  collinear_contract K -> try_as_optimum_now K minpos s = Ok (so, nf) ->
+  joint_spectrum_new K minpos optimum_idler_sees_old_poling optimum_waist_sees_old_idler jsa_raw singles_raw norm_jsi norm_singles freq so = Ok j ->
+  let '(w0s, w0i) := center freq so in
+  (jsa_of jsa_raw norm_jsi so w0s w0i <> 0%C -> Cmod (jsa_normalized jsa_raw norm_jsi j w0s w0i) = 1) /\
+  (0 <= norm_jsi so w0s w0i -> jsi_of jsa_raw norm_jsi so w0s w0i <> 0 -> jsi_normalized jsa_raw norm_jsi j w0s w0i = 1) /\
+  (singles_of singles_raw norm_singles so w0s w0i <> 0 -> jsi_singles_normalized singles_raw norm_singles j w0s w0i = 1).
+Proof. exact unit_at_centre_of_optimum. Qed.
+
 (* ---- non-vacuity: oracles satisfying the contracts, an idler-consistent setup that optimises *)
 Definition ex_K : oracles R := ex_K0.   (* constant oracles, Proofs/C20_idempotent.v *)
 Example C20_ex_contract : collinear_contract ex_K.
@@ -100,6 +117,8 @@ Example C20_ex_optimises : exists s s' nf, idler_consistent s /\
   try_as_optimum R_ops ex_K 0 optimum_idler_sees_old_poling optimum_waist_sees_old_idler s = Ok (s', nf).
 Proof. exact (ex_optimises optimum_idler_sees_old_poling optimum_waist_sees_old_idler). Qed.
 
+Print Assumptions C20_idempotent_now.
+Print Assumptions C20_unit_at_centre_of_optimum.
 Print Assumptions C20_idempotent.
 Print Assumptions C20_idempotent_after_two.
 Print Assumptions C20_optimum_keeps.
